@@ -23,33 +23,49 @@ package txsizes
 //@     + sumOuts + (chg > 0 ? 8 + varint(chg) + chg : 0)
 //@ spec func worstWit(p2pkh Int, p2tr Int, p2wpkh Int, nested Int) Int =
 //@     (p2wpkh + nested + p2tr > 0) ? 2 + p2pkh + (p2wpkh + nested)*(1+1+72+1+33) + p2tr*(1+1+65) : 0
-//@ spec func worstVSize(p2pkh Int, p2tr Int, p2wpkh Int, nested Int, nOut Int, sumOuts Int, chg Int) Int =
+//@ spec opaque func worstVSize(p2pkh Int, p2tr Int, p2wpkh Int, nested Int, nOut Int, sumOuts Int, chg Int) Int =
 //@     worstBase(p2pkh, p2tr, p2wpkh, nested, nOut, sumOuts, chg) + (worstWit(p2pkh, p2tr, p2wpkh, nested) + 3) / 4
+
+// estV is the value EstimateVirtualSize computes (a regression pin used by
+// callers to name the estimate); est_upper_bounds_real is the property-level
+// fact about it.
+//@ spec func estWit(p2pkh Int, p2tr Int, p2wpkh Int, nested Int) Int =
+//@     (p2wpkh + nested + p2tr > 0) ? 2 + varint(p2wpkh + nested + p2tr) + p2wpkh*109 + p2tr*67 + nested*109 : 0
+//@ spec opaque func estV(p2pkh Int, p2tr Int, p2wpkh Int, nested Int, nOut Int, sumOuts Int, chg Int) Int =
+//@     8 + varint(p2pkh + p2tr + p2wpkh + nested) + varint(nOut + (chg > 0 ? 1 : 0))
+//@     + p2pkh*149 + p2wpkh*41 + p2tr*41 + nested*64 + sumOuts + (chg > 0 ? 8 + varint(chg) + chg : 0)
+//@     + (estWit(p2pkh, p2tr, p2wpkh, nested) + 3) / 4
+//@ lemma est_upper_bounds_real@C07: forall a Int, b Int, c Int, d Int, n Int, so Int, chg Int ::
+//@     0 <= a && 0 <= b && 0 <= c && 0 <= d && 0 <= n && 0 <= chg ==> estV(a, b, c, d, n, so, chg) >= worstVSize(a, b, c, d, n, so, chg)
 
 //@ func SumOutputSerializeSizes(outputs) (serializeSize)
 //@   property C07
 //@   requires len: len(outputs) < 1048576
-//@   requires elems: forall i Int :: {outputs[i]} 0 <= i && i < len(outputs) ==> outputs[i] != nil && len(outputs[i].PkScript) <= 1048576
+//@   requires elems: forall i Int :: {outputs[i]} 0 <= i && i < len(outputs) ==> outputs[i] != nil && len(outputs[i].PkScript) <= 100000
 //@   invariant 1 idx: 0 <= rangeindex + 1 && rangeindex + 1 <= len(outputs)
 //@   invariant 1 acc: serializeSize == SUMOUT(outputs, rangeindex + 1)
-//@   invariant 1 bound: 0 <= serializeSize && serializeSize <= (rangeindex + 1) * 1048600
+//@   invariant 1 bound: 0 <= serializeSize && serializeSize <= (rangeindex + 1) * 100020
 //@   ensures sum: serializeSize == SUMOUT(outputs, len(outputs))
-//@   ensures bound: 0 <= serializeSize && serializeSize <= len(outputs) * 1048600
+//@   ensures bound: 0 <= serializeSize && serializeSize <= len(outputs) * 100020
 
 //@ func EstimateSerializeSize(inputCount, txOuts, addChangeOutput) (r)
 //@   property C07
 //@   requires counts: 0 <= inputCount && inputCount < 1048576 && len(txOuts) < 1048576
-//@   requires elems: forall i Int :: {txOuts[i]} 0 <= i && i < len(txOuts) ==> txOuts[i] != nil && len(txOuts[i].PkScript) <= 1048576
+//@   requires elems: forall i Int :: {txOuts[i]} 0 <= i && i < len(txOuts) ==> txOuts[i] != nil && len(txOuts[i].PkScript) <= 100000
 //@   ensures exact: r == 8 + varint(inputCount) + varint(len(txOuts) + (addChangeOutput ? 1 : 0)) + inputCount*149
 //@       + SUMOUT(txOuts, len(txOuts)) + (addChangeOutput ? 34 : 0)
 
 //@ func EstimateVirtualSize(numP2PKHIns, numP2TRIns, numP2WPKHIns, numNestedP2WPKHIns, txOuts, changeScriptSize) (r)
 //@   property C07
 //@   replay txsizes_vsize.go
+//@   reveal estV worstVSize
 //@   requires counts: 0 <= numP2PKHIns && numP2PKHIns < 1048576 && 0 <= numP2TRIns && numP2TRIns < 1048576
 //@       && 0 <= numP2WPKHIns && numP2WPKHIns < 1048576 && 0 <= numNestedP2WPKHIns && numNestedP2WPKHIns < 1048576
 //@   requires outs: len(txOuts) < 1048576 && 0 <= changeScriptSize && changeScriptSize <= 1048576
-//@   requires elems: forall i Int :: {txOuts[i]} 0 <= i && i < len(txOuts) ==> txOuts[i] != nil && len(txOuts[i].PkScript) <= 1048576
+//@   requires elems: forall i Int :: {txOuts[i]} 0 <= i && i < len(txOuts) ==> txOuts[i] != nil && len(txOuts[i].PkScript) <= 100000
+//@   ensures exact: r == estV(numP2PKHIns, numP2TRIns, numP2WPKHIns, numNestedP2WPKHIns,
+//@       len(txOuts), SUMOUT(txOuts, len(txOuts)), changeScriptSize)
+//@   ensures bound: 0 <= r && r <= 200 * (numP2PKHIns + numP2TRIns + numP2WPKHIns + numNestedP2WPKHIns) + len(txOuts) * 100020 + changeScriptSize + 100
 //@   ensures upper_bounds_real: r >= worstVSize(numP2PKHIns, numP2TRIns, numP2WPKHIns, numNestedP2WPKHIns,
 //@       len(txOuts), SUMOUT(txOuts, len(txOuts)), changeScriptSize)
 //@   ensures not_excessive: r <= worstVSize(numP2PKHIns, numP2TRIns, numP2WPKHIns, numNestedP2WPKHIns,
